@@ -133,7 +133,7 @@ def step (s : St) (ws : List String) : String × St :=
       else
         let pre := bytesOf (tn ++ ".")
         let es := s.ctx.typed.filterMap fun (k, t) =>
-          if pre.isPrefixOf k then
+          if pre.isPrefixOf k && t.set then      -- an unset leaf is not listed
             some (hex (k.drop pre.length) ++ (if t.addr then "=addr:" else "=num:") ++ toString t.val)
           else none
         (treeOut es, s)
